@@ -102,6 +102,9 @@ class Frame(object):
         self.try_depth = 0
 
 
+REFLECTIVE_BUILTINS = {"getattr", "hasattr", "setattr", "vars", "isinstance", "id", "type", "repr"}
+
+
 class StateFlow(object):
     def __init__(self, repo, axioms=True, unsigned_reads=None):
         self.repo = repo
@@ -507,6 +510,9 @@ class StateFlow(object):
             return st
         if kw_state:
             raise AnalysisError("%s:%s passes state by keyword" % (fr.mod.rel, fr.name))
+        if target is None and isinstance(e.func, ast.Name) and e.func.id in REFLECTIVE_BUILTINS:
+            # reflection on the state *object* does not read or write its entries; the hidden-state rules report it
+            return st
         if target is None or target.kind != "func":
             raise AnalysisError(
                 "%s:%s passes `state` to unresolved callee %s"
